@@ -105,11 +105,14 @@ func main() {
 		sample := fl.Float64("sample", 1, "fraction of states whose transitions are replayed")
 		maxStates := fl.Int64("max-states", 0, "stop after N states")
 		out := fl.String("out", "", "write the JSON summary here (default stdout)")
+		walks := fl.Int("walks", 0, "random walks over the model graph after the exhaustive replay")
+		walkLen := fl.Int("walk-len", 200, "steps per random walk")
+		avoid := fl.String("walk-avoid", "", "comma separated branch substrings the walks do not take")
 		cf := addCommon(fl)
 		_ = fl.Parse(os.Args[2:])
 		o := cf.opts()
 		ads := adaptersFor(*module, *adapter, o)
-		sum, err := engine.Run(os.Stdin, *module, ads, engine.Options{Workers: *cf.workers, Sample: *sample, Seed: o.Seed, MaxStates: *maxStates, OutFile: *out})
+		sum, err := engine.Run(os.Stdin, *module, ads, engine.Options{Workers: *cf.workers, Sample: *sample, Seed: o.Seed, MaxStates: *maxStates, OutFile: *out, Walks: *walks, WalkLen: *walkLen, AvoidBranches: strings.Split(*avoid, ",")})
 		if err != nil {
 			fatal(err)
 		}
